@@ -31,9 +31,14 @@ def run(tier, seed, t0):
     na = T(tier, 500, 50000)
     R.run_inv(Inv("grid", n, "plain", timeout=T(tier, 900, 5400)), seed, wd, m)
     R.run_inv(Inv("grid", na, "asanassert", timeout=T(tier, 900, 5400), first=n), seed, wd, m)
+    # grids of more than a million voxels, with 1 and with 7 threads (7 divides few voxel counts)
+    nh = T(tier, 16, 400)
+    R.run_inv(Inv("grid", nh, "plain", args=["--huge=1"], threads=7, shards=2, first=4000000, timeout=T(tier, 900, 5400), tag="grid/plain/huge/t7"), seed, wd, m)
+    R.run_inv(Inv("grid", nh // 2, "plain", args=["--huge=1"], threads=1, shards=2, first=4100000, timeout=T(tier, 900, 5400), tag="grid/plain/huge/t1"), seed, wd, m)
     ev = max(1, m.evaluations)
     b = lambda k: m.bins.get(k, 0)
     floors = {
+        "grids_beyond_a_million_voxels": (m.bins.get("grids_beyond_a_million_voxels", 0), 1.4 * nh),
         "grids": (m.evaluations, 0.99 * (n + na)),
         "max_corner_points": (b("corner:max"), 0.7 * ev),
         "min_corner_points": (b("corner:min"), 0.7 * ev),
